@@ -38,6 +38,25 @@ is what the one-phase parts check on the same trees) or what the map answers
 now for that path (a live mirror) - the statement does not say which,
 anything else (a raw Handle where a loaded resource was and is expected ...)
 is a violation (``old_snapshot_is_frozen_or_live``).
+
+The NEW snapshot is also walked map-driven (``MapMirror``): the names are
+those the source map lists itself and the expected answers are what the map
+answers now, without the tree description.  When the edit leaves the map in a
+state the description cannot express (``source_divergence``: e.g. a name that
+is a handle in a lower layer AND a sub-map) that walk - with every absent
+alphabet / foreign name - is the whole oracle of the case: the statement's
+yardstick is the map itself.
+
+Reload cases (parts ``reload-after-handle-clear*``)::
+
+    case    := style '|' entries '~~reload'        (a tree with a handle)
+
+The snapshot is taken and read in full (every path by [] / getattr / get),
+then rounds of ``Handle.clear()`` follow - every visible handle, then (with
+several handles) each one alone, each round once with the snapshot and once
+with the map reading first afterwards - and after each round every path is
+compared again: the map loads a new object and the snapshot has to yield
+that very object (phase ``after_handle_clear``).
 """
 import keyword
 import re
@@ -89,8 +108,23 @@ RULE = ('E3: every resource tree of depth <= 3 over the names '
         'path and every absent alphabet name of the tree before the edit '
         'read by [] / getattr / get from the OLD snapshot: each answer is '
         'the answer a faithful snapshot of the tree before the edit gives '
-        'or the answer of the map now.  A two-phase case is distinct by '
-        '(tree, edited map, edit).')
+        'or the answer of the map now.  The NEW snapshot is in addition '
+        'walked map-driven: every name the source map lists in any handles '
+        'layer or in maps, expected answer = what the map answers now to '
+        '[name] / get(name), descending where the map yields a sub-map; if '
+        'the map after the edit is not the tree the edit should have made '
+        '(a name both handle and sub-map ...) this walk, extended by every '
+        'absent alphabet / foreign name, is the oracle of that case.  A '
+        'two-phase case is distinct by (tree, edited map, edit).  Parts '
+        '"reload-after-handle-clear*": every tree with at least one handle '
+        'of a smaller family (bounds in the part parameters), both layering '
+        'styles: get_static_map(), every path read by [] / getattr / get, '
+        'then rounds of Handle.clear() - every visible handle at once, '
+        'then, when there are several, each one alone - each round in the '
+        'two orders (snapshot reads a name first, map reads it first) and '
+        'after each round every path of the tree is compared again by [] / '
+        'getattr / get with what the map yields now (a newly loaded '
+        'object).  A reload case is distinct by its tree.')
 
 # A family is the union of one or more (alphabet, nodes per map, nodes in
 # total) boxes; a later box only contributes the trees that use a name the
@@ -223,19 +257,23 @@ def parse(case):
 class Res:
     """A loaded resource (fresh object per load: identity is meaningful)."""
 
-    def __init__(self, label):
+    def __init__(self, label, serial=1):
         self.label = label
+        self.serial = serial    # which load() of its handle made it
 
     def __repr__(self):
-        return f'<Res {self.label}>'
+        return f'<Res {self.label} load#{self.serial}>'
 
 
 class THandle(desper.Handle):
+    loads = 0
+
     def __init__(self, label):
         self.label = label
 
     def load(self):
-        return Res(self.label)
+        self.loads += 1
+        return Res(self.label, self.loads)
 
     def __repr__(self):
         return f'<THandle {self.label}>'
@@ -1125,8 +1163,35 @@ def run(tier, rep):
         'AttributeError through [] and getattr; get() may also return None '
         '(as ResourceMap.get does)',
         'a mutation attempt may raise any exception type',
-        'a name is a handle xor a sub-map in the source tree (a sub-map '
-        'over a lower-layer handle of the same name is C11 territory)',
+        'a name is a handle xor a sub-map in the generated trees.  What a '
+        'ResourceMap holds after an edit is C11\'s subject; if an edit '
+        'leaves the source map in a state the tree description cannot '
+        'express (a sub-map over a surviving lower-layer handle of the same '
+        'name, a handle that did not give way ...: source_divergence) the '
+        'case is not abandoned: the new snapshot is compared with what the '
+        'map itself answers, one step at a time, for every name the map '
+        'lists and every absent alphabet / foreign name (same clauses), the '
+        'checks that lean on the description (old snapshot included) are '
+        'skipped and the case is counted under '
+        'info_source_map_outside_tree_description (0 on a tree whose '
+        'ResourceMap keeps handle and map names disjoint)',
+        'map-driven walk (map_driven_walk): the names of a map are read '
+        'from its public attributes handles.maps / maps, the expected '
+        'answers only from map[name] and map.get(name); a sub-map hidden '
+        'behind a handle of the same name is not entered (the map does not '
+        'yield it for that one-step path)',
+        'reload parts: Handle.clear() is called on the handle objects that '
+        'map.get and snapshot.get hand out (their identity is checked '
+        'before); a handle shadowed in the lower layer is never loaded and '
+        'never cleared.  After a clear the snapshot must yield the object '
+        'the map yields, by identity, whichever side reads first (a '
+        'snapshot may not keep an unwrapped resource past Handle.clear(), '
+        'nor load one that the handle does not hand to the map as well); '
+        'every load() makes a new object.  Names the map does not have are '
+        'not probed again in these parts (nothing is added or removed); '
+        'clearing is done in rounds on one snapshot (all handles, then '
+        'each alone; schedule in the part parameters), not in separate '
+        'cases per round',
         'two ChainMap layers at most; sibling insertion order fixed (order '
         'of the alphabet)',
         'writing through snapshot.__dict__ / object.__setattr__ is not '
@@ -1199,6 +1264,9 @@ def run(tier, rep):
                         deepen_child=DEEPEN_CHILD,
                         old_snapshot='re-read after the edit: every answer '
                         'frozen or live',
+                        new_snapshot='compared by the tree description and '
+                        'by the map-driven walk; by the latter alone (plus '
+                        'absent names) if the map left the description',
                         edited_maps='the root and every sub-map',
                         bounds_apply_to='the tree before the edit'),
             chunk=max(200, len(cases) // 400))
